@@ -119,6 +119,11 @@ func plan(tier string, seed int64) []driver.Case {
 				continue
 			}
 			cases = append(cases, driver.Case{ID: fmt.Sprintf("sync/%s/%s", e.Name, sc), P: map[string]string{"kind": "sync", "entry": e.Name, "script": sc}})
+			// the same, the teardown of every source panicking: for a source that ended inside Subscribe the
+			// teardown is added to a subscription that is closed already and runs (and fails) right there
+			if e.NSrc >= 1 && strings.ContainsAny(sc, "CE") {
+				cases = append(cases, driver.Case{ID: fmt.Sprintf("sync/%s/%s/tdpanic", e.Name, sc), P: map[string]string{"kind": "sync", "entry": e.Name, "script": sc, "tdpanic": "1"}})
+			}
 		}
 	}
 	// random chains, puppet-driven
@@ -218,6 +223,26 @@ func runSubPanic(c driver.Case) driver.Result {
 	if late.Load() != 1 {
 		res.Verdict, res.Key = driver.Violated, "C03/subscription/add-after-disposal-not-run-at-once"
 		res.Msg = fmt.Sprintf("teardown added after disposal had run %d times when Add returned", late.Load())
+		return res
+	}
+	// a teardown added after disposal that PANICS (its panic is the caller's): the subscription stays usable -
+	// a further Add runs its teardown at once, IsClosed / Wait / Unsubscribe return
+	var late2 atomic.Int64
+	st, dump, _ := quiesce.Call(func() {
+		func() { defer func() { recover() }(); sub.Add(func() { panic("late-teardown-panics") }) }()
+		func() { defer func() { recover() }(); sub.Add(func() { late2.Add(1) }) }()
+		sub.IsClosed()
+		sub.Wait()
+	}, 10*time.Second)
+	if st == quiesce.Hung {
+		res.Verdict, res.Key, res.Dirty = driver.Violated, "C03/hang/"+quiesce.BlockedSite(dump), true
+		res.Msg = fmt.Sprintf("subscription closed via %s: after a teardown added to the closed subscription panicked, Add / IsClosed / Wait never return; every goroutine of the process is blocked", via)
+		res.Witness = dump
+		return res
+	}
+	if st == quiesce.Returned && late2.Load() != 1 {
+		res.Verdict, res.Key = driver.Violated, "C03/subscription/add-after-disposal-not-run-at-once"
+		res.Msg = fmt.Sprintf("after a teardown added to the closed subscription panicked, the next teardown added had run %d times when Add returned", late2.Load())
 		return res
 	}
 	// a second Unsubscribe must not run anything again
@@ -940,17 +965,32 @@ func runSync(c driver.Case) driver.Result {
 	for i := 0; i < e.NSrc; i++ {
 		sc := src.Parse(c.Get("script"))
 		s := src.New(fmt.Sprintf("s%d", i), sc)
+		if c.Get("tdpanic") != "" {
+			s.PanicInTeardown = fmt.Sprintf("teardown of source %d panics", i)
+		}
 		srcs = append(srcs, s)
 		b.Srcs = append(b.Srcs, s.Observable())
 	}
 	r := rec.New(e.Name)
 	var sub ro.Subscription
 	var pan any
-	func() {
+	what := fmt.Sprintf("%s over synchronous sources [%s]", e.Name, c.Get("script"))
+	if c.Get("tdpanic") != "" {
+		what += ", every source teardown panicking"
+	}
+	st, dump, _ := quiesce.Call(func() {
 		defer func() { pan = recover() }()
 		sub = e.Pipeline(b).Subscribe(context.Background(), r, false)
-	}()
-	what := fmt.Sprintf("%s over synchronous sources [%s]", e.Name, c.Get("script"))
+	}, 15*time.Second)
+	if st == quiesce.Hung {
+		res.Verdict, res.Key, res.Dirty = driver.Violated, "C03/hang/"+quiesce.BlockedSite(dump), true
+		res.Msg = what + ": Subscribe never returns; every goroutine of the process is blocked"
+		res.Witness = dump
+		return res
+	}
+	if st != quiesce.Returned {
+		return driver.Result{Verdict: driver.Inconclusive, Key: "subscribe-did-not-return", Msg: what + ": Subscribe did not return within the watchdog budget (no hang proof)", Dirty: true}
+	}
 	if pan != nil {
 		res.Verdict, res.Key = driver.Violated, "C03/"+e.Family+"/panic-escaped-subscribe"
 		res.Msg = fmt.Sprintf("%s: Subscribe panicked: %v", what, pan)
